@@ -34,6 +34,11 @@ def generate(rng, tier):
     op = rng.choice(OPS)
     nk = rng.choice([1, 1, 2])
     pools = [[1, 2, 3, None], ["x", "y", None, "z"]]
+    if op == "aggregate" and rng.random() < 0.08:
+        # a float group key that is NaN in some items (JSON NaN, pandas): whatever NaN groups with, None still comes last and no item is lost
+        n = rng.choice([2, 4, 7, 10])
+        items = [{"_tag_": i, "g0": rng.choice([1.0, 2.0, None, "nan", None, "nan"]), "g1": rng.choice(["x", "y"])} for i in range(n)]
+        return {"op": "aggregate_nan", "items": items, "keys": rng.choice([["g0"], ["g1", "g0"], ["g0", "g1"]])}
     if op == "aggregate":
         n = rng.choice([0, 1, 2, 4, 7, 10])
         keys = ["g0", "g1"][:nk]
@@ -86,6 +91,31 @@ def execute(case):
     op = case["op"]
     res = Result()
     res.cls(f"op:{op}")
+    if op == "aggregate_nan":
+        keys = case["keys"]
+        nan = float("nan")
+        items = [dict(it, g0=nan if it["g0"] == "nan" else it["g0"]) for it in case["items"]]
+        res.sig = f"aggregate_nan|{keys}|n{min(len(items), 3)}"
+        res.nontrivial = True
+        res.cls("op:aggregate", "aggregate:nan-group-key")
+        try:
+            with capture_stdout():
+                out = di.ListOfDicts(copy.deepcopy(items)).group_by(*keys).aggregate(n=len, tags=lambda g: [i._tag_ for i in g])
+        except Exception as e:
+            res.violate(f"aggregate:raised:{exc_name(e)}:nan-key", f"aggregate by {keys} raised {e!r} on {canon.short(items, 700)}")
+            return res.dict()
+        got = [dict(x) for x in list.__iter__(out)]
+        tags = sorted(t for g in got for t in g["tags"])
+        if tags != list(range(len(items))):
+            res.violate("aggregate:items-lost-or-duplicated:nan-key", f"aggregate by {keys}: tags {tags} for {len(items)} items; got {canon.short(got, 600)}")
+        # "None last": within the same values of the preceding keys, a group whose key is None follows every group whose key is not
+        for j, k in enumerate(keys):
+            for a, b in zip(got, got[1:]):
+                if all(a[q] == b[q] for q in keys[:j]) and a[k] is None and b[k] is not None:
+                    res.violate("aggregate:none-group-not-last:nan-key", f"aggregate by {keys}: group {a} precedes {b}; items {canon.short(items, 600)}")
+                    break
+        res.count("aggregates-compared")
+        return res.dict()
     if op == "aggregate":
         items, keys = case["items"], case["keys"]
         n = len(items)
